@@ -30,7 +30,7 @@ SMALL = dict(n_comp=None, n_states=None)
 
 
 def build_pool(rng: random.Random, n: int) -> list:
-    pool = [modelgen.shipped_text("lorentz.ode"), modelgen.shipped_text("fitzhughnagumo.ode")]
+    pool = [modelgen.shipped_text("lorentz.ode"), modelgen.shipped_text("fitzhughnagumo.ode"), modelgen.UNICODE_MODEL]
     while len(pool) < n:
         kn = {"n_comp": rng.choice([1, 1, 2]), "n_states": rng.randrange(2, 5), "n_params": rng.randrange(1, 5),
               "n_inter": rng.choice([0, 2, 4, 6]), "max_fan": rng.choice([2, 3]), "p_func": rng.choice([0.0, 0.15]),
